@@ -8,7 +8,7 @@
    completeness direction: Go's Set.Equal (used to de-duplicate facts) is not an
    equivalence on lists with repeated elements — [C05_setfree_needed] exhibits
    the counter-example; sets remain unrestricted in bodies and expressions. *)
-From BV Require Import Base Term Expr Datalog DatalogProofs.
+From BV Require Import Base Term Expr Datalog DatalogProofs Odometer OdometerProofs.
 From Coq Require Import Permutation.
 
 Theorem C05_run_sound : forall rx lim rules facts fs e,
@@ -65,6 +65,12 @@ Theorem C05_world_only_grows : forall rx lim rules facts fs e,
   run rx lim rules facts = (fs, e) -> forall f, In f facts -> In f fs.
 Proof. exact run_extends. Qed.
 
+(* the literal index machine of combine / advanceIndexes (current, indexes, carry
+   loop) visits exactly the tuples of the declarative enumeration, in the same order *)
+Theorem C05_odometer_refines : forall fuel ps facts,
+  (enough_fuel ps facts <= fuel)%nat -> odo_tuples fuel ps facts = Some (combos ps facts).
+Proof. exact odometer_refines_all. Qed.
+
 Example C05_setfree_needed := run_complete_needs_setfree.
 Example C05_hypotheses_satisfiable := anc_least_model.
 
@@ -76,3 +82,4 @@ Print Assumptions C05_query_exact.
 Print Assumptions C05_query_sound.
 Print Assumptions C05_order_free.
 Print Assumptions C05_world_only_grows.
+Print Assumptions C05_odometer_refines.
